@@ -1,5 +1,6 @@
 import Dashu.Driver.Loop
 import Dashu.Model.Text.Bytes
+import Dashu.Model.Text.Float
 /-
   Driver of group `text` (C07): integer formatting, parsing, byte and chunk encodings.
   For every case the *required* result (specification side: `digits`/`pad_integral`/grammar/
@@ -75,6 +76,101 @@ def rtOp (W : Nat) (signed : Bool) (z : Int) (r : Nat) : String :=
 def chunksStr (cs : List Nat) : String :=
   " ".intercalate (("d:" ++ toString cs.length) :: cs.map natToHex)
 
+-- ---------------------------------------------------------------- C08: floats
+
+open Dashu.Model.Float in
+def parseMode (s : String) : Option Mode :=
+  match s with
+  | "Z" => some .zero | "A" => some .away | "U" => some .up | "D" => some .down
+  | "E" => some .halfEven | "H" => some .halfAway | _ => none
+
+structure FArg where
+  base : Nat
+  repr : Dashu.Model.Float.FRepr
+  prec : Nat
+  mode : Dashu.Model.Float.Mode
+
+/-- `f:<base>:<signif hex>:<exp dec>:<prec dec>:<mode>`; the repr is normalised as `Repr::new` does -/
+def parseFArg (s : String) : Option FArg :=
+  match s.splitOn ":" with
+  | ["f", b, sg, e, p, m] => do
+    let b ← b.toNat?
+    let sg ← parseInt sg
+    let e ← e.toInt?
+    let p ← p.toNat?
+    let m ← parseMode m
+    pure ⟨b, Dashu.Model.Float.FRepr.new b sg e, p, m⟩
+  | _ => none
+
+def reprStr (r : Dashu.Model.Float.FRepr) : String := intToHex r.signif ++ " " ++ toString r.exp
+
+def flagStr : Option Dashu.Model.Float.Rounding → String
+  | none => "Exact"
+  | some r => "Inexact:" ++ Dashu.Model.Float.rName r
+
+def fparseRes (r : Except ParseError (Dashu.Model.Float.FRepr × Nat)) : String :=
+  match r with
+  | .ok (v, n) => "ok " ++ reprStr v ++ " " ++ toString n
+  | .error e => "err " ++ e.name
+
+def optNat (s : String) : Option (Option Nat) :=
+  if s = "none" then some none else (parseDecNat s).map some
+
+def convStr (p : Nat) : ConvResult → String
+  | .ok (r, fl) => "ok " ++ reprStr r ++ " " ++ toString p ++ " " ++ flagStr fl
+  | .unlimitedPrecision => "panic UnlimitedPrecision"
+  | .lnExp => "ok lnexp-branch-not-mirrored"
+
+def floatDispatch (W : Nat) (op : String) (args : List String) : Option String :=
+  match op, args with
+  | "f.parse", [b, _m, s] => do
+    let b ← parseDecNat b; let s ← parseStr s
+    pure (flag (fparseRes (fromStrNative W true b s)) (fparseRes (parseFloatSpec b s)) false)
+  | "f.fmt", [k, p, w, fl, a] => do
+    let p ← optNat p; let w ← optNat w; let a ← parseFArg a
+    let f : FmtSpec := { plus := fl = "+", width := w }
+    match k with
+    | "disp" =>
+      let m := natBytesToStr (fmtRound true a.base a.mode f p a.repr)
+      if w.isNone then
+        pure (flag ("ok " ++ m) ("ok " ++ natBytesToStr (displaySpec a.base a.mode f.plus p a.repr)) false)
+      else pure ("ok " ++ m)
+    | "lexp" => pure ("ok " ++ natBytesToStr (fmtSci true a.base a.mode f p false a.repr))
+    | "uexp" => pure ("ok " ++ natBytesToStr (fmtSci true a.base a.mode f p true a.repr))
+    | _ => none
+  | "f.rt", [a] => do
+    let a ← parseFArg a
+    let text := fmtRound true a.base a.mode {} none a.repr
+    let back := fromStrNative W true a.base text
+    let res := match back with
+      | .ok (v, n) => reprStr v ++ " " ++ toString n
+      | .error e => "err " ++ e.name
+    let same := match back with
+      | .ok (v, _) => v == a.repr
+      | .error _ => false
+    let out := "ok " ++ natBytesToStr text ++ " " ++ res
+    pure (if same then out else out ++ " !model-spec-mismatch round-trip-differs")
+  | "f.with_base", [nb, a] => do
+    let nb ← parseDecNat nb; let a ← parseFArg a
+    let p := withBasePrecision W true a.base nb a.prec
+    pure (convStr p (convertBase W a.base nb a.mode p a.repr))
+  | "f.with_base_prec", [nb, p, a] => do
+    let nb ← parseDecNat nb; let p ← parseDecNat p; let a ← parseFArg a
+    pure (convStr p (convertBase W a.base nb a.mode p a.repr))
+  | "f.from_f32", [bits, _m] => do
+    let bits ← parseNat bits
+    pure (match fromIeee 23 8 bits with
+      | none => "err OutOfBounds"
+      | some (.inl neg) => if neg then "ok -inf" else "ok inf"
+      | some (.inr (r, p)) => "ok " ++ reprStr r ++ " " ++ toString p)
+  | "f.from_f64", [bits, _m] => do
+    let bits ← parseNat bits
+    pure (match fromIeee 52 11 bits with
+      | none => "err OutOfBounds"
+      | some (.inl neg) => if neg then "ok -inf" else "ok inf"
+      | some (.inr (r, p)) => "ok " ++ reprStr r ++ " " ++ toString p)
+  | _, _ => none
+
 def dispatch : Dispatch := fun W op args =>
   match op, args with
   | "u.fmt", [t, fa, fl, w, n] => do fmtOp W t fa fl w (← parseNat n)
@@ -144,6 +240,6 @@ def dispatch : Dispatch := fun W op args =>
       | .ok v => "ok " ++ natToHex v
       | .error .chunkBitsZero => "panic ChunkBitsZero"
     pure (flag model spec false)
-  | _, _ => none
+  | _, _ => floatDispatch W op args
 
 end Dashu.Driver.Text
